@@ -1,10 +1,13 @@
+mod compat;
 mod core;
 mod doc;
 mod drive;
 mod extract;
+mod grammar;
 mod replay;
 mod rx;
 mod sortcases;
+mod types;
 
 fn arg(args: &[String], name: &str) -> Option<String> {
     args.iter().position(|a| a == name).and_then(|p| args.get(p + 1)).cloned()
@@ -68,6 +71,19 @@ fn main() {
         }
         Some("sortcases") => {
             println!("{}", sortcases::run(&arg(&args, "--in").expect("--in"), &arg(&args, "--out").expect("--out"), &arg(&args, "--trace").expect("--trace")));
+        }
+        Some("types") => {
+            let count: usize = arg(&args, "--count").and_then(|s| s.parse().ok()).unwrap_or(60);
+            let seed: u64 = arg(&args, "--seed").and_then(|s| s.parse().ok()).unwrap_or(1);
+            let v = types::sample(count, seed, args.iter().any(|a| a == "--all"));
+            std::fs::write(arg(&args, "--out").expect("--out"), serde_json::to_string(&v).unwrap()).unwrap();
+            println!("{}", serde_json::json!({"types": v["types"].as_object().map(|o| o.len()).unwrap_or(0), "total": v["total_types"]}));
+        }
+        Some("grammar") => {
+            println!("{}", grammar::run(&arg(&args, "--types").expect("--types"), &arg(&args, "--in").expect("--in"), &arg(&args, "--out").expect("--out")));
+        }
+        Some("compat") => {
+            println!("{}", compat::run(&arg(&args, "--types").expect("--types"), &arg(&args, "--in").expect("--in"), &arg(&args, "--out").expect("--out")));
         }
         Some("histories") => {
             let input = arg(&args, "--in").expect("--in");
